@@ -47,9 +47,50 @@ class C03(Prop):
             elif which == "payload_len":
                 g[5] = g[5] + [0]
             cases.append({"kind": "eq:" + which, "f": f, "g": g})
+        for _ in range(n // 3):
+            net = [[rng.randrange(256) for _ in range(4)] for _ in range(3)] + [rng.random() < 0.5] + \
+                  [[rng.choice([0, rng.randrange(256)]) for _ in range(4)] for _ in range(3)] + \
+                  [rng.random() < 0.5, rng.randrange(5), rng.randrange(256), rng.random() < 0.5,
+                   list(rng.choice(["", "home", "zażółć", "x" * 32, "ÿ" * 100]).encode())]
+            cases.append({"kind": "netinfo", "net": net})
+            ver = [[rng.randrange(256) for _ in range(2)], rng.randrange(256), [rng.randrange(256) for _ in range(2)],
+                   [rng.randrange(256) for _ in range(3)], rng.choice([0, 1, 255, 256, 65535, rng.randrange(65536)]),
+                   rng.randrange(65536), rng.randrange(65536)]
+            cases.append({"kind": "version", "ver": ver, "sender": rng.choice([0x56, 0x45, rng.randrange(256)])})
         return cases
 
     def run_impl(self, case):
+        if case["kind"] == "netinfo":
+            import socket
+            from harness.c09 import net_to_params
+            from pyplumio.frames.responses import DeviceAvailableResponse
+            from pyplumio.structures.network_info import NetworkInfo
+            try:
+                eth, wlan = net_to_params(case["net"])
+                ni = NetworkInfo(eth=eth, wlan=wlan, server_status=bool(case["net"][7]))
+                msg = bytes(DeviceAvailableResponse(data={"network": ni}).message)
+                back = DeviceAvailableResponse(message=bytearray(msg)).data["network"]
+                a = lambda x: list(socket.inet_aton(x))
+                dec = [a(back.eth.ip), a(back.eth.netmask), a(back.eth.gateway), bool(back.eth.status), a(back.wlan.ip),
+                       a(back.wlan.netmask), a(back.wlan.gateway), bool(back.server_status), int(back.wlan.encryption),
+                       int(back.wlan.signal_quality), bool(back.wlan.status), list(back.wlan.ssid.encode())]
+                return {"message": list(msg), "decoded": dec}
+            except Exception as e:  # noqa: BLE001
+                return {"error": type(e).__name__}
+        if case["kind"] == "version":
+            from pyplumio.frames.responses import ProgramVersionResponse
+            from pyplumio.structures.program_version import VersionInfo
+            v = case["ver"]
+            try:
+                vi = VersionInfo(software="%d.%d.%d" % (v[4], v[5], v[6]), struct_tag=bytes(v[0]), struct_version=v[1],
+                                 device_id=bytes(v[2]), processor_signature=bytes(v[3]))
+                msg = bytes(ProgramVersionResponse(sender=FI.addr(case["sender"]), data={"version": vi}).message)
+                back = ProgramVersionResponse(message=bytearray(msg)).data["version"]
+                sw = [int(x) for x in back.software.split(".")]
+                dec = [list(back.struct_tag), back.struct_version, list(back.device_id), list(back.processor_signature)] + sw
+                return {"message": list(msg), "decoded": dec}
+            except Exception as e:  # noqa: BLE001
+                return {"error": type(e).__name__}
         if case["kind"] == "roundtrip":
             f = case["f"]
             frame = FI.make_frame(*f)
@@ -64,7 +105,12 @@ class C03(Prop):
 
     def model_many(self, cases):
         rt = [c for c in cases if c["kind"] == "roundtrip"]
-        eq = [c for c in cases if c["kind"] != "roundtrip"]
+        eq = [c for c in cases if c["kind"].startswith("eq")]
+        nets = [c for c in cases if c["kind"] == "netinfo"]
+        vers = [c for c in cases if c["kind"] == "version"]
+        fixnet = lambda n: [n[0], n[1], n[2], bool(n[3]), n[4], n[5], n[6], bool(n[7]), n[8], n[9], bool(n[10]), n[11]]
+        r_net = iter(model.call_many("encode_netinfo", [c["net"] for c in nets]))
+        r_ver = iter(model.call_many("encode_version", [[c["ver"], c["sender"]] for c in vers]))
         encs = model.call_many("enc", [c["f"] for c in rt])
         reads = model.call_many("read_all", [bytes(e) + bytes(c["rest"]) for e, c in zip(encs, rt)])
         eqs = model.call_many("frame_eqb", [[c["f"], c["g"]] for c in eq])
@@ -72,7 +118,15 @@ class C03(Prop):
         it_rt = iter(zip(encs, reads))
         it_eq = iter(eqs)
         for c in cases:
-            if c["kind"] == "roundtrip":
+            if c["kind"] == "netinfo":
+                m = next(r_net)
+                d = model.call("decode_netinfo", [1, bytes(m[0])]) if m else None
+                out.append({"message": m[0], "decoded": fixnet(d[0])} if m and d else {"error": "model:None"})
+            elif c["kind"] == "version":
+                m = next(r_ver)
+                d = model.call("decode_version", bytes(m[0])) if m else None
+                out.append({"message": m[0], "decoded": d[0]} if m and d else {"error": "model:None"})
+            elif c["kind"] == "roundtrip":
                 e, r = next(it_rt)
                 out.append({"bytes": e, "read": r[:1]})
             else:
@@ -86,7 +140,13 @@ class C03(Prop):
         it = iter(res_rt)
         out = []
         for c, b in zip(cases, behaviours):
-            if c["kind"] == "roundtrip":
+            if c["kind"] == "netinfo":
+                n = c["net"]
+                exp = [n[0], n[1], n[2], bool(n[3]), n[4], n[5], n[6], bool(n[7]), n[8], n[9], bool(n[10]), n[11]]
+                out.append(b.get("decoded") == exp)      # building from data then decoding returns the same data
+            elif c["kind"] == "version":
+                out.append(b.get("decoded") == c["ver"] and b.get("message", [None])[-1] == c["sender"])
+            elif c["kind"] == "roundtrip":
                 out.append(bool(next(it)))
             else:
                 differ = c["f"] != c["g"]
